@@ -340,7 +340,7 @@ pub fn digest_corpus(ops: &[Op], u: &Universe) -> (Vec<String>, BTreeMap<String,
 }
 
 fn golden_path(net: &str) -> PathBuf {
-    PathBuf::from(std::env::var("VERIF_GOLDEN").unwrap_or_else(|_| "/verif/golden".into())).join(format!("{}.json", net))
+    std::env::var("VERIF_GOLDEN").map(PathBuf::from).unwrap_or_else(|_| crate::report::root().join("golden")).join(format!("{}.json", net))
 }
 
 pub fn golden_generate(net: &str) {
